@@ -45,6 +45,10 @@ pub struct Case {
     /// 0: the transport accepts every write whole; else index+1 into SHORT_WRITES (bytes accepted per write call)
     #[serde(default)]
     pub short_write: u8,
+    /// a Content-Type is already present before the form becomes the body: 1 set on the request, 2 a session default;
+    /// the form's own type (with the boundary) is what must be announced
+    #[serde(default)]
+    pub prior_content_type: u8,
 }
 
 pub const SHORT_WRITES: &[usize] = &[1, 7, 1460, 4096, 8191, 8192, 8193, 16000];
@@ -201,7 +205,13 @@ fn send_form(case: &Case, prev_boundary: &str) -> Result<(Sent, Vec<Part>), Outc
     // a transport may accept fewer bytes than offered: the form on the wire is the same
     let _short = crate::transport::short_writes(short_write_bytes(case.short_write));
     let (_guard, net) = serve_scripts(vec![ok_response()]);
-    let prepared = match attohttpc::post("http://origin.test/upload").proxy_settings(no_proxy()).body(form).try_prepare() {
+    let mut sess = attohttpc::Session::new();
+    if case.prior_content_type == 2 {
+        sess.header("Content-Type", "text/plain; charset=utf-8");
+    }
+    let rb = sess.post("http://origin.test/upload").proxy_settings(no_proxy());
+    let rb = if case.prior_content_type == 1 { rb.header("Content-Type", "application/json") } else { rb };
+    let prepared = match rb.body(form).try_prepare() {
         Ok(p) => p,
         Err(e) => return Err(Outcome::fail("C15:prepare-failed", format!("{e:?}"))),
     };
@@ -277,14 +287,16 @@ non-trivial = >= 2 parts with a file, or data containing a delimiter look-alike,
 
     fn strategy(_tier: Tier) -> BoxedStrategy<Case> {
         prop_oneof![
-            1 => Just(Case { texts: vec![], files: vec![], short_write: 0 }),
-            30 => (proptest::collection::vec((name_strategy(), text_value()), 0..8), proptest::collection::vec(file_strategy(), 0..6), short_write_strategy()).prop_map(|(texts, files, short_write)| Case { texts, files, short_write }),
+            1 => Just(Case { texts: vec![], files: vec![], short_write: 0, prior_content_type: 0 }),
+            30 => (proptest::collection::vec((name_strategy(), text_value()), 0..8), proptest::collection::vec(file_strategy(), 0..6), short_write_strategy(), prop_oneof![4 => Just(0u8), 1 => Just(1u8), 1 => Just(2u8)])
+                .prop_map(|(texts, files, short_write, prior_content_type)| Case { texts, files, short_write, prior_content_type }),
         ]
         .boxed()
     }
 
     fn check(case: &Case, ctx: &mut Ctx) -> Outcome {
         ctx.label_if(case.short_write != 0, "short-writing-transport");
+        ctx.label_if(case.prior_content_type != 0, "content-type-present-before-the-form");
         let mut prev = "AaBbCcDdEeFfGgHh".to_string();
         let mut total = 0;
         let mut boundaries = vec![];
